@@ -44,6 +44,16 @@ def check(run, model, tier):
                        'objects; a heap is not stable, so "equal priorities in publish order" holds for every publish sequence and every '
                        'delivery lag iff `<` is a strict total order that breaks priority ties by construction order. The `__lt__` body is '
                        'evaluated abstractly over all 81 pairs of a 3x3 (priority, sequence) domain and compared with the lexicographic order.')
+    run.rule('DEFAULT.priority', 'publish paths replace the priority by the default only where the caller passed None: the priority asked for is the priority queued')
+    from sa.util import check_param_defaults
+    n_def = 0
+    for cn_, mn_ in (('ActiveFabricSource', 'publish'), ('ActiveObject', 'publish'), ('ActiveObject', '_publish')):
+        f_ = model.cls(cn_).methods.get(mn_)
+        if f_ is not None:
+            run.touch(f_)
+            n_def += check_param_defaults(run, 'DEFAULT.priority', f_, params={'priority'},
+                                          why='every publication then carries the default priority, and "smaller priority number first" no longer holds')
+    run.floor('priority default sites on the publish paths', n_def, 2)
     run.rule('CMP.total-order', '__lt__ == lexicographic (priority, construction sequence); sequence from next(itertools.count())')
     run.rule('CMP.queue-kind', 'fabric queues are PriorityQueue, put()/get() only; items built from (event, priority) at publish time')
     fab = model.cls('ActiveFabricSource')
